@@ -202,6 +202,36 @@ def audit(property_files, module_names, allow_native=()):
                 log_tail=text[-1500:] if (rc != 0 or bad) else "")
 
 
+def project_imports(property_files):
+    """the project's own modules (DV.*, DVP.*) that the given property files import, transitively"""
+    seen, todo = [], [f[:-5].replace("/", ".") for f in property_files]
+    while todo:
+        m = todo.pop()
+        if m in seen:
+            continue
+        path = os.path.join(LEAN, m.replace(".", "/") + ".lean")
+        if not os.path.exists(path):
+            continue
+        seen.append(m)
+        for line in open(path):
+            line = line.strip()
+            if line.startswith("import "):
+                dep = line.split()[1]
+                if dep == "DV" or dep.startswith(("DV.", "DVP.")):
+                    todo.append(dep)
+            elif line and not line.startswith(("--", "/-", "set_option")):
+                break
+    return seen
+
+
+def leanchecker(property_files, timeout=3000):
+    """independent re-check of the compiled .olean files of the property modules and of every project module they import"""
+    mods = project_imports(property_files)
+    t = time.time()
+    rc, out, err = sh(["lake", "env", "leanchecker"] + mods, cwd=LEAN, timeout=timeout)
+    return dict(ok=(rc == 0), modules=len(mods), seconds=round(time.time() - t, 1), log_tail=(out + err)[-600:] if rc else "")
+
+
 def load_known():
     p = os.path.join(VERIF, "known_findings.json")
     if not os.path.exists(p):
